@@ -6,8 +6,12 @@ props = [json.loads(l) for l in open(os.path.join(V, "properties.jsonl"))]
 hooks = subprocess.run(["git", "-C", "/repo", "log", "--format=%h %s"], capture_output=True, text=True).stdout.split("\n")
 hook_commits = [l.split()[0] for l in hooks if l.startswith(tuple("0123456789abcdef")) and "verif hook" in l]
 checks, na = [], []
+ready = set(open(os.path.join(V, "meta", "READY")).read().split())
 for p in props:
     pid = p["id"]
+    if pid not in ready:
+        na.append(dict(property_id=pid, reason="no check registered yet: the check for this property is still being built/validated in /verif at this commit (planned, DESIGN.md section 10); nothing is claimed for it"))
+        continue
     mp = os.path.join(V, "meta", pid + ".json")
     if not os.path.exists(mp) or not os.path.exists(os.path.join(V, "coq", "props", pid + ".v")):
         na.append(dict(property_id=pid, reason="no check registered yet: model/proof for this property is not built in /verif at this commit (planned, DESIGN.md section 10); nothing is claimed for it"))
